@@ -47,9 +47,25 @@ pub fn ops(args: &[String]) -> i32 {
         if out.starts_with("ok") { *st.entry("lex.tokens".into()).or_default() += out.matches(';').count() as u64 + 1; }
         writeln!(imp, "{out}").unwrap();
     }
-    println!("STAT lex.ops {n}");
+    // strings with line breaks in them (drawn after the main streams, so that those stay as they were)
+    for _ in 0..n / 20 {
+        let line = multi_line(&mut g);
+        writeln!(ops, "lex {}", cps(&line)).unwrap();
+        let out = match std::panic::catch_unwind(|| asca::verif::lex_line(&line)) { Ok(s) => s, Err(_) => "panic".to_string() };
+        *st.entry("lex.stream.multi-line".into()).or_default() += 1;
+        writeln!(imp, "{out}").unwrap();
+    }
+    println!("STAT lex.ops {}", n + n / 20);
     for (k, v) in st { println!("STAT {k} {v}"); }
     0
+}
+
+
+/// a rule "line" that holds a line break (the library takes any string): comment / rule / blank parts joined by `\n`, `\r\n`, a tab
+fn multi_line(g: &mut Gen) -> String {
+    let part = |g: &mut Gen| match g.rng.below(5) { 0 => format!(";; {}", noise(g, 2)), 1 => String::new(), 2 => format!("{} ;; note", g.rule(Profile::Tame)), 3 => "  ".to_string(), _ => g.rule(Profile::Tame) };
+    let k = 2 + g.rng.below(2);
+    (0..k).map(|_| part(g)).collect::<Vec<_>>().join(["\n", "\r\n", "\n", " \n\t"][g.rng.below(4)])
 }
 
 /// `parse-ops <ops> <impl> <tier> <seed>`: the Lean port of lexer + parser ≙ `Lexer::get_line` + `Parser::parse` on the same
@@ -88,7 +104,16 @@ pub fn parse_ops(args: &[String]) -> i32 {
         *st.entry(format!("parse.outcome.{class}")).or_default() += 1;
         writeln!(imp, "{out}").unwrap();
     }
-    println!("STAT parse.ops {n}");
+    for _ in 0..n / 20 {
+        let line = multi_line(&mut g);
+        writeln!(ops, "parse {}", cps(&line)).unwrap();
+        let out = match std::panic::catch_unwind(|| asca::verif::parse_line(&line)) { Ok(s) => s, Err(_) => "panic".to_string() };
+        *st.entry("parse.stream.multi-line".into()).or_default() += 1;
+        let class = out.split(' ').take(if out.starts_with("err") { 2 } else { 1 }).collect::<Vec<_>>().join(".");
+        *st.entry(format!("parse.outcome.{class}")).or_default() += 1;
+        writeln!(imp, "{out}").unwrap();
+    }
+    println!("STAT parse.ops {}", n + n / 20);
     for (k, v) in st { println!("STAT {k} {v}"); }
     0
 }
